@@ -1804,6 +1804,27 @@ impl SeekableAsset for ChunkyTape {
 // @timeout 900
 // @fn Tap::from_asset; Tap::next_block; Tap::next_block_byte; LoadableAsset::read_exact (as used by the tape reader)
 // @sym contents of a two-block tape image (block lengths 2 and 1: layout literal, bytes symbolic) and the read chunking of the host asset: one byte per read, or full reads that never cross file offset k for every k = 1..6 (so every possible split point, including inside both length words)
+// @assert whatever the read chunking, the first block is found and delivers exactly its two bytes in order (a mis-framed reader is caught here before any later, mis-sized read is attempted)
+// @bound 7-byte image, first block only (unwind 10)
+#[kani::proof]
+#[kani::unwind(10)]
+fn c16_tape_first_block_does_not_depend_on_read_chunking() {
+    let sel: u8 = kani::any();
+    kani::assume(sel < 4);
+    match sel {
+        0 => tape_chunk_case(0, false),
+        1 => tape_chunk_case(1, false),
+        2 => tape_chunk_case(2, false),
+        _ => tape_chunk_case(3, false),
+    }
+}
+
+// @harness
+// @prop C16 C10
+// @tier quick
+// @timeout 900
+// @fn Tap::from_asset; Tap::next_block; Tap::next_block_byte; LoadableAsset::read_exact (as used by the tape reader)
+// @sym contents of a two-block tape image (block lengths 2 and 1: layout literal, bytes symbolic) and the read chunking of the host asset: one byte per read, or full reads that never cross file offset k for every k = 1..6 (so every possible split point, including inside both length words)
 // @assert whatever the read chunking, the tape reader delivers exactly the image's blocks: block 1 = its two bytes in order, block 2 = its byte, then end of tape - the same as with the in-memory cursor (C10's stream harnesses)
 // @bound 7-byte image, two blocks (unwind 10)
 #[kani::proof]
@@ -1812,17 +1833,17 @@ fn c16_tape_blocks_do_not_depend_on_read_chunking() {
     let sel: u8 = kani::any();
     kani::assume(sel < 7);
     match sel {
-        0 => tape_chunk_case(0), // one byte per read
-        1 => tape_chunk_case(1), // split inside the first length word
-        2 => tape_chunk_case(2),
-        3 => tape_chunk_case(3), // split inside block 1
-        4 => tape_chunk_case(4),
-        5 => tape_chunk_case(5), // split inside the second length word
-        _ => tape_chunk_case(6),
+        0 => tape_chunk_case(0, true), // one byte per read
+        1 => tape_chunk_case(1, true), // split inside the first length word
+        2 => tape_chunk_case(2, true),
+        3 => tape_chunk_case(3, true), // split inside block 1
+        4 => tape_chunk_case(4, true),
+        5 => tape_chunk_case(5, true), // split inside the second length word
+        _ => tape_chunk_case(6, true),
     }
 }
 
-fn tape_chunk_case(boundary: usize) {
+fn tape_chunk_case(boundary: usize, whole_tape: bool) {
     let (b0, b1, c0): (u8, u8, u8) = (kani::any(), kani::any(), kani::any());
     let asset = ChunkyTape { data: [2, 0, b0, b1, 1, 0, c0, 0], len: 7, pos: 0, boundary };
     let mut t = match Tap::from_asset(asset) {
@@ -1833,6 +1854,10 @@ fn tape_chunk_case(boundary: usize) {
     kani::assert(matches!(t.next_block_byte(), Ok(Some(x)) if x == b0), "c16.tape_chunks.block1_byte0");
     kani::assert(matches!(t.next_block_byte(), Ok(Some(x)) if x == b1), "c16.tape_chunks.block1_byte1");
     kani::assert(matches!(t.next_block_byte(), Ok(None)), "c16.tape_chunks.block1_ends");
+    if !whole_tape {
+        kani::cover!(t.asset.pos >= 4, "first block consumed");
+        return;
+    }
     kani::assert(matches!(t.next_block(), Ok(true)), "c16.tape_chunks.second_block_found");
     kani::assert(matches!(t.next_block_byte(), Ok(Some(x)) if x == c0), "c16.tape_chunks.block2_byte0");
     kani::assert(matches!(t.next_block_byte(), Ok(None)), "c16.tape_chunks.block2_ends");
